@@ -36,8 +36,27 @@ Theorem C19_all_gone_every_gauge_zero : forall h, (forall q, copen (conns (run h
 Proof. exact (all_gone_every_gauge_zero bname store async_store). Qed.
 End C19.
 
+(* ---- the same for the code as TRANSLATED from the Python source on every run (harness/pytrans3.py -> BrokerGen.v):
+   run_src is the event loop with the translated Server.subscribe/unsubscribe/publish and Connection.on_publish/
+   on_subscribe/on_unsubscribe/authenticate/connection_lost/message_received plugged in; BrokerGenRun.run_src_eq proves it
+   equal to the model.  These theorems rely on functional_extensionality_dep (Coq standard library) and nothing else. *)
+From HP Require Import PyBroker BrokerGen BrokerGenEq BrokerGenRun BrokerGenProps.
+Theorem C19_src_run_is_model : forall bname store async_store h, run_src bname store async_store h = run bname store async_store h.
+Proof. exact run_src_eq. Qed.
+Theorem C19_src_gauges : forall bname store async_store h, M (run_src bname store async_store h).
+Proof. exact src_M. Qed.
+Theorem C19_src_per_identity : forall bname store async_store h, PI (run_src bname store async_store h).
+Proof. exact src_PI. Qed.
+Theorem C19_src_all_gone_every_gauge_zero : forall bname store async_store h, (forall q, copen (conns (run_src bname store async_store h) q) = false) ->
+  forall i c, gval (i, c) (g_subs (run_src bname store async_store h)) = 0%Z.
+Proof. exact src_all_gone_every_gauge_zero. Qed.
+
 Print Assumptions C19_gauges.
 Print Assumptions C19_all_gone_zero.
 Print Assumptions C19_per_identity.
 Print Assumptions C19_never_negative.
 Print Assumptions C19_all_gone_every_gauge_zero.
+Print Assumptions C19_src_run_is_model.
+Print Assumptions C19_src_gauges.
+Print Assumptions C19_src_per_identity.
+Print Assumptions C19_src_all_gone_every_gauge_zero.
